@@ -19,6 +19,20 @@ NOTES = {
     'C13-4': 'first missed: the two sides never had the same URL; same-URL cases with every hash class per side added',
     'C20-4': 'first missed: no scenario had a real HTTP request in flight; the real-process probe now runs a listening application with a client waiting during shutdown',
     'C06-1': 'earlier round', 'C06-2': 'earlier round',
+    # round 4 (changes that need something specific to manifest)
+    'C03-5': 'first missed: no two versions differed only in a look-alike character (superscript, ligature, full-width, NFC/NFD, case); look-alike word pairs added',
+    'C05-5': 'first missed: no input was larger than a few hundred characters; large repetitive inputs (up to 280 000 characters, changes next to a copy of themselves) added',
+    'C06-5': 'first missed: no two URLs served the same bytes under different headers with the same hash in one process; request sequences added',
+    'C06-6': 'first missed: every upstream reply carried a Content-Type header; replies without one at .pdf/.txt/extension-less URLs added (the differ outcome became an oracle input of the handler model)',
+    'C07-6': 'first missed: pool breakage was never interleaved with a shutdown in the C07 exploration; schedules with both added',
+    'C08-6': 'first missed: error responses were never requested with pass_headers in other spellings than the header sent; added',
+    'C11-6': 'first missed: no body began with more than a few whitespace characters; leading whitespace of 507 to 70 000 characters added',
+    'C14-6': 'first missed: no page used attribute names that are parameter names of the libraries underneath (name, string, attrs, ...); added',
+    'C15-5': 'first missed: no block element carried a style attribute (display:inline); added to the generator',
+    'C17-6': 'first missed: no page was nested deeper than the default recursion limit; 1200-level pages first and last in the workload',
+    'C19-5': 'first missed: parameters were only ever sent in the query string; form-encoded request bodies added',
+    'C19-6': 'first missed: no error response of an application that is shutting down was inspected; added',
+    'C20-5': 'first missed: shutdown never began while a request was still fetching its pages; two scenarios added to the real-process probe',
 }
 
 
@@ -49,14 +63,15 @@ def main():
     i = s.index('## 11. Seeded changes')
     head = '''## 11. Seeded changes and reverse fixes: which check catches what
 
-%d breaking changes were made by fresh sub-agents in three rounds (2 per property, then a
-second pair for every property), each agent given only the text of
+%d breaking changes were made by fresh sub-agents in four rounds (2 per property per round from
+round 2 on; round 4 asked for changes that need something specific to manifest: an interleaving, a
+multi-request history, an unusual input, two cooperating edits), each agent given only the text of
 one property and a scratch worktree under `/tmp`; each change was confirmed by me
 (`harness/confirm_seed.sh`: the agent's demonstration passes on the unchanged tree and
 fails with the change; the 81 tests still pass) and archived under `seeded/<id>/`.
 `harness/seed_sweep.py` applies each in turn to `/repo`, runs the quick check of its
 property, records the failing obligations (`seeded/SWEEP.json`, `meta.json: caught_by`)
-and undoes it. **%d of %d are caught by the quick tier; all 15 reverse fixes are caught.**
+and undoes it. **%d of %d are caught by the quick tier; all 16 reverse fixes are caught.**
 Seeds that an earlier version of a check missed (or caught by correspondence only) are
 marked; in every such case the *generator or observer* was strengthened - never the
 property, never a special case for the seed.
@@ -76,7 +91,9 @@ Earlier rounds strengthened C06 (query order, independent decode, conflicting
 meta), C13 (memento / file serving kinds, systematic injections), C18 (asterisk
 configurations), C12 (escaped-NUL body), C05 (non-NFC text) after missed seeds.
 '''
-    open(p, 'w').write(s[:i] + head + '\n'.join(rows) + tail)
+    j = s.find('\n## 12.')
+    rest = s[j:] if j >= 0 else ''
+    open(p, 'w').write(s[:i] + head + '\n'.join(rows) + tail + rest)
     print('section 11: %d seeds (%d missed), %d reverse fixes' % (n, missed, len(rrows)))
 
 
